@@ -28,6 +28,9 @@ def run_complex_cases(cases, res, stratum):
         if c['carrier'] == 'arr:complex64': val = np.array(zs, dtype=np.complex64)
         elif c['carrier'] == 'np:complex64': val = np.complex64(zs[0])
         elif c['carrier'] == 'list:complex64': val = [np.complex64(z) for z in zs]
+        elif c['carrier'] == 'arr_obj':
+            # an object ndarray mixing Python ints, floats and complex numbers (an element with a zero imaginary part goes in as a real number)
+            val = np.array([(int(a) if float(a) == int(a) else float(a)) if b == 0 else complex(a, b) for a, b in zip(re, im)] + [None], dtype=object)[:-1]
         kw = dict(rounding=c['r'], overflow=c['o'])
         try:
             if c['route'] == 'ctor': x = fx.Fxp(val, s, nw, nf, **kw)
@@ -201,6 +204,11 @@ def shard(shard, nshards, rng, tier, extra):
                 carrier = 'np:complex64' if k == 1 and rng.random() < 0.5 else rng.choice(['arr:complex64', 'list:complex64'])
         if nf < 0 and rng.random() < 0.3:           # a component so small that component * 2^n_frac underflows to zero: its sign still decides ceil / floor
             re = [rng.choice([5e-324, -5e-324, 1e-320, 0.0])] * k; im = [rng.choice([5e-324, -5e-324, 0.0, 2.0 ** -nf])] * k; carrier = rng.choice(['pycomplex', 'arr:complex128']) if k == 1 else 'arr:complex128'
+        if k >= 2 and carrier in ('list', 'tuple', 'arr:complex128') and rng.random() < 0.3:
+            # mixed object array: some elements real (ints or floats), at least one complex, in any order
+            carrier = 'arr_obj'; im = [0.0 if rng.random() < 0.5 else v for v in im]
+            if all(v == 0 for v in im): im[rng.randrange(k)] = 1.0 / 2 ** max(nf, 0)
+            if rng.random() < 0.5: re[0] = float(int(re[0]))
         cases.append({'s': s, 'nw': nw, 'nf': nf, 'r': rng.choice(RMODES), 'o': rng.choice(OMODES), 'carrier': carrier, 'route': rng.choice(['ctor', 'call', 'set_val']), 're': re, 'im': im})
     run_complex_cases(cases, res, 'X:complex-components')
     if tier != 'quick' or True:
